@@ -44,22 +44,22 @@ def _connect_paths(f):
   return g, cfgm.walk_paths(g, decide, max_paths=20000)
 
 
-def _msg_events(p, upto):
+def _msg_events(p, upto, mv='msg'):
   """Events about `msg` on a path prefix: ('assign', call) / ('test', kind)."""
   ev = []
   for n, l in p.steps[:upto]:
     if n.kind == 'stmt' and isinstance(n.ast, ast.Assign) and any(
-        core.is_name(t, 'msg') for t in n.ast.targets):
+        core.is_name(t, mv) for t in n.ast.targets):
       ev.append(('assign', n.ast.value))
     elif n.kind == 'test' and isinstance(n.ast, ast.Compare) and \
         len(n.ast.ops) == 1:
       d = dotted(n.ast.left)
       c = n.ast.comparators[0]
       op = n.ast.ops[0]
-      if d == 'msg.command' and core.const_str(c) == 'CNXN':
+      if d == mv + '.command' and core.const_str(c) == 'CNXN':
         is_cnxn = (l == 'T') == isinstance(op, ast.Eq)
         ev.append(('cnxn', is_cnxn))
-      if d == 'msg.arg0' and ends_with(dotted(c) or '', 'AUTH_TOKEN'):
+      if d == mv + '.arg0' and ends_with(dotted(c) or '', 'AUTH_TOKEN'):
         is_tok = (l == 'T') == isinstance(op, ast.Eq)
         ev.append(('token', is_tok))
   return ev
@@ -77,6 +77,8 @@ def r1_r2_connect(report, repo):
               'read_until')
   f = repo.func(AP, 'AdbConnection.connect')
   g, paths = _connect_paths(f)
+  # the local holding the message received last
+  mv = lib.local_from(f, lib.calls(attr='read_until'), 'msg')
   n_ret = n_sign = 0
   bad1 = bad2 = None
   for p in paths:
@@ -84,7 +86,7 @@ def r1_r2_connect(report, repo):
       if n.kind == 'stmt' and isinstance(n.ast, ast.Return) and isinstance(
           n.ast.value, ast.Call) and call_name(n.ast.value) == 'cls':
         n_ret += 1
-        ev = _msg_events(p, i)
+        ev = _msg_events(p, i, mv)
         ok = False
         for kind, v in reversed(ev):
           if kind == 'cnxn':
@@ -98,12 +100,12 @@ def r1_r2_connect(report, repo):
         if not ok:
           bad1 = bad1 or n.ast
         a = n.ast.value.args
-        if [dotted(x) for x in a[1:3]] != ['msg.arg1', 'msg.data']:
+        if [dotted(x) for x in a[1:3]] != [mv + '.arg1', mv + '.data']:
           bad1 = bad1 or n.ast
       for sub in n.subnodes():
         if isinstance(sub, ast.Call) and last_attr(sub) == 'sign':
           n_sign += 1
-          ev = _msg_events(p, i)
+          ev = _msg_events(p, i, mv)
           ok = False
           for kind, v in reversed(ev):
             if kind == 'token':
@@ -111,7 +113,7 @@ def r1_r2_connect(report, repo):
               break
             if kind == 'assign':
               break
-          if not ok or dotted(sub.args[0]) != 'msg.data':
+          if not ok or dotted(sub.args[0]) != mv + '.data':
             bad2 = bad2 or sub
   report.expect_instances(rule1, n_ret, 3, 'connection returns on paths')
   report.expect_instances(rule2, n_sign, 2, 'signatures on paths')
@@ -131,11 +133,11 @@ def r1_r2_connect(report, repo):
                'once before the loop): a non-token payload gets signed')
   loops = [n for n in walk_no_nested(f.node) if isinstance(n, ast.For)]
   ok = len(loops) == 1 and dotted(loops[0].iter) == 'rsa_keys' and \
-      dotted(loops[0].target) == 'rsa_key'
+      isinstance(loops[0].target, ast.Name)
   report.check(ok, rule2, f.qualname, 'keys-in-order', f.node,
                'keys are tried by iterating rsa_keys itself')
   sg = [c for c in core.calls_in(f.node, attr='sign')]
-  report.check(all(dotted(c.func.value) == 'rsa_key' and
+  report.check(all(dotted(c.func.value) == dotted(loops[0].target) and
                    any(p_ is loops[0] for p_ in core.parents(c)) for c in sg)
                if loops else False, rule2, f.qualname, 'sign-in-loop', f.node,
                'signing uses the loop\'s current key')
@@ -295,7 +297,9 @@ def r4_open(report, repo):
                'the device')
   w = [c for c in core.calls_in(f.node, attr='AdbMessage')]
   ok = len(w) == 1 and core.const_str(core.get_kw(w[0], 'command', 0)) == 'OPEN' \
-      and dotted(core.get_kw(w[0], 'arg0', 1)) == 'stream_transport.local_id'
+      and dotted(core.get_kw(w[0], 'arg0', 1)) == lib.local_from(
+          f, lib.calls(name='self._make_stream_transport'),
+          'stream_transport') + '.local_id'
   report.check(ok, rule, f.qualname, 'open-message', f.node,
                'OPEN carries the newly allocated local id')
   e = repo.func(AP, ST + '.ensure_opened')
